@@ -11,6 +11,37 @@ THEOREMS = ["Facto.Circuit.evalEnt_local", "Facto.Circuit.settle", "Facto.scalar
             "Facto.evalNode_mapIdx", "Facto.embed_sound", "Facto.embed_nodeVal", "Facto.retype_nodeVal", "Facto.embed_retype_nodeVal", "Facto.bundle_end_to_end", "Facto.carries_sound", "Facto.scalar_history_end_to_end"]
 
 
+def crosses(rec, verdict):
+    """Does any wiring anomaly of the joint build connect an entity of P's computation with one of Q's?
+    Ownership: the planned-edge ancestors of the p_ names resp. the q_ names."""
+    from sem import ancestors
+    names = rec.get("names") or {}
+    ids = set(rec.get("entity_ids", []))
+
+    def cone(prefix):
+        starts = set()
+        for k, r in names.items():
+            if k.startswith(prefix) and isinstance(r, dict) and r.get("src"):
+                if r["src"] in ids:
+                    starts.add(r["src"])
+                a = f"{r['src']}_{k}_output_anchor"
+                if a in ids:
+                    starts.add(a)
+        return ancestors(rec, starts)
+    cp, cq = cone("p_"), cone("q_")
+    only_p, only_q = cp - cq, cq - cp
+    wire = verdict.get("wire") or {}
+    pairs = [(i.get("sink"), i.get("producer")) for i in wire.get("intrusions", [])] + \
+            [(i.get("sink"), i.get("producer")) for i in wire.get("pollution", [])] + \
+            [(i.get("sink"), i.get("producer")) for i in wire.get("doubled", [])] + \
+            [(u[1], u[0]) for u in wire.get("unselected", [])] + \
+            [(u[0], u[2]) for u in wire.get("unjustified", []) if len(u) >= 3]
+    for a, b in pairs:
+        if (a in only_p and b in only_q) or (a in only_q and b in only_p):
+            return True
+    return False
+
+
 def run(res, tier):
     proved = prove(res, MODULE, THEOREMS)
     n = 40 if tier == "quick" else 500
@@ -31,7 +62,11 @@ def run(res, tier):
         # the joint program must be exactly as good as the two parts
         if ij["status"] == "violation" or (ij["status"] == "known" and ip["status"] == "agree" and iq["status"] == "agree"):
             stats["joint_worse_than_parts"] += 1
-            if ij["status"] == "known":
+            if ij["status"] == "known" and rec is not None and not crosses(rec, ij["verdict"]):
+                # the listed defect sits inside one program's own cone (it merely did not show, or was not triggered
+                # by the inputs tried, when that program was compiled alone): it is that finding, not interference
+                stats["joint_only_but_within_one_program"] += 1
+            elif ij["status"] == "known":
                 # a known wiring defect that only appears once both programs are present joins the two computations
                 mm = (ij["verdict"].get("mismatches") or (ij["verdict"].get("history") or {}).get("mismatches") or [{}])[0]
                 res.violation({"reason": "P and Q each behave as their source says alone, but not when compiled together",
